@@ -42,108 +42,127 @@ def _pd_val(v):
     return v
 
 
-def targets_agree(cfg):
+def agree_on(tp, be, inputs):
+    """all export targets of the template's table on backend `be` for the given input rows:
+    returns (problems, columns, height) - problems = [(what, detail)]; None if the pipeline is
+    refused / the data are outside its domain"""
     import polars as pl
 
     import pydiverse.transform as pdt
     from pydiverse.transform import extended as X
 
     from .. import real as RL
-    from ..corpora.common import rotated
-    from ..e1 import random_rows
 
-    rng = random.Random(cfg.seed * 31 + 5)
-    viol, n, samples = [], 0, []
+    frames = {name: RL.frame_from_rows(schema, inputs[name]) for name, schema in tp.sources}
+    try:
+        tbls = RL.polars_tables(tp.sources, frames) if be == "polars" else RL.sqlite_tables(tp.sources, RL.sqlite_engine(tp.sources, frames))
+        tbl = tp.prog(RL.RealAPI, *tbls)
+        tbl = tbl[0] if isinstance(tbl, tuple) else tbl
+        base = tbl >> X.export(pdt.Polars())
+    except Exception:  # noqa: BLE001
+        return None  # refused / data outside DEF: not this property's concern
+    cols = base.columns
+    rows = base.rows()
+    problems = []
+
+    def bad(what, detail=None):
+        problems.append((what, detail))
+
+    def same_rows(r2):
+        if len(r2) != len(rows):
+            return False
+        a = sorted(rows, key=lambda r: tuple((v is None, str(v)) for v in r))
+        b = sorted(r2, key=lambda r: tuple((v is None, str(v)) for v in r))
+        return all(len(x) == len(y) and all(_eqv(p, q) for p, q in zip(x, y, strict=True)) for x, y in zip(a, b, strict=True))
+
+    try:
+        lz = (tbl >> X.export(pdt.Polars(lazy=True)))
+        lz = lz.collect() if isinstance(lz, pl.LazyFrame) else lz
+        if lz.columns != cols or not same_rows(lz.rows()) or lz.schema != base.schema:
+            bad("lazy export differs from eager export", {"lazy": lz.columns, "eager": cols})
+        dol = tbl >> X.export(pdt.DictOfLists())
+        if list(dol) != cols or not same_rows(list(zip(*[dol[c] for c in cols], strict=True)) if cols else []):
+            bad("DictOfLists differs", list(dol))
+        lod = tbl >> X.export(pdt.ListOfDicts())
+        if any(list(d) != cols for d in lod) or not same_rows([tuple(d[c] for c in cols) for d in lod]):
+            bad("ListOfDicts differs")
+        try:
+            d1 = tbl >> X.export(pdt.Dict())
+            if base.height != 1 or list(d1) != cols or not same_rows([tuple(d1[c] for c in cols)]):
+                bad("Dict differs / accepted for height != 1")
+        except TypeError:
+            if base.height == 1:
+                bad("Dict rejected a one-row table")
+        try:
+            sc = tbl >> X.export(pdt.Scalar())
+            if not (base.height == 1 and len(cols) == 1 and _eqv(sc, rows[0][0])):
+                bad("Scalar differs / accepted for a non 1x1 table")
+        except TypeError:
+            if base.height == 1 and len(cols) == 1:
+                bad("Scalar rejected a 1x1 table")
+        pdf = tbl >> X.export(pdt.Pandas())
+        if list(pdf.columns) != cols or not same_rows([tuple(_pd_val(v) for v in r) for r in pdf.itertuples(index=False, name=None)]):
+            bad("Pandas differs", {"pandas": pdf.to_dict("list"), "polars": base.to_dict(as_series=False)})
+        else:
+            # integer / boolean columns with nulls must keep an integer / boolean dtype
+            for c in cols:
+                if base.schema[c].is_integer() and "int" not in str(pdf[c].dtype).lower():
+                    bad(f"Pandas dtype of integer column {c} is {pdf[c].dtype}")
+                if base.schema[c] == pl.Boolean and "bool" not in str(pdf[c].dtype).lower():
+                    bad(f"Pandas dtype of boolean column {c} is {pdf[c].dtype}")
+        re = pdt.Table(base)
+        rb = re >> X.export(pdt.Polars())
+        if rb.columns != cols or rb.schema != base.schema or not same_rows(rb.rows()):
+            bad("Table(exported) does not reproduce the frame", {"schema": (str(rb.schema), str(base.schema))})
+        if cols:
+            first = [c for c in tbl][0]
+            ser = first.export(pdt.Polars())
+            if ser.name != cols[0] or not same_rows_1(ser.to_list(), [r[0] for r in rows]):
+                bad("ColExpr.export of the first column differs")
+            pser = first.export(pdt.Pandas())
+            if pser.name != cols[0] or len(pser) != base.height or not same_rows_1([_pd_val(v) for v in pser.tolist()], [r[0] for r in rows]):
+                bad("ColExpr.export(Pandas) of the first column differs", {"name": pser.name, "len": len(pser), "values": pser.tolist()[:5]})
+            elif str(pser.dtype) != str(pdf[cols[0]].dtype):
+                bad(f"ColExpr.export(Pandas) dtype {pser.dtype} differs from the table export's {pdf[cols[0]].dtype}")
+    except Exception as e:  # noqa: BLE001
+        bad(f"export-target-error {type(e).__name__}: {str(e)[:200]}")
+    return problems, cols, base.height
+
+
+def _borrowed(cfg):
+    from ..corpora.common import rotated
+
     tps = []
     for m in BORROW:
         mod = importlib.import_module(m)
         ts = mod.templates(cfg)
         tps += rotated(ts, 14 if cfg.tier == "quick" else 60, cfg.seed)
+    return tps
+
+
+def targets_agree(cfg):
+    from ..e1 import random_rows
+
+    rng = random.Random(cfg.seed * 31 + 5)
+    viol, n, samples = [], 0, []
     # shapes: a random table, exactly one row (single-cell / one-row results), no row
-    for tp, shape in [(tp, shape) for tp in tps for shape in ("random", "one", "empty")]:
+    for tp, shape in [(tp, shape) for tp in _borrowed(cfg) for shape in ("random", "one", "empty")]:
         for be in ("polars", "sqlite"):
             inputs = {name: random_rows(schema, 4, rng, tp) for name, schema in tp.sources}
             if shape == "one":
                 inputs = {name: (rows or random_rows(schema, 4, rng, tp) or [{c: None for c in schema}])[:1] for (name, schema), rows in zip(tp.sources, inputs.values(), strict=True)}
             elif shape == "empty":
                 inputs = {name: [] for name in inputs}
-            frames = {name: RL.frame_from_rows(schema, inputs[name]) for name, schema in tp.sources}
-            try:
-                tbls = RL.polars_tables(tp.sources, frames) if be == "polars" else RL.sqlite_tables(tp.sources, RL.sqlite_engine(tp.sources, frames))
-                tbl = tp.prog(RL.RealAPI, *tbls)
-                tbl = tbl[0] if isinstance(tbl, tuple) else tbl
-                base = tbl >> X.export(pdt.Polars())
-            except Exception:  # noqa: BLE001
-                continue  # refused / data outside DEF: not this property's concern
+            res = agree_on(tp, be, inputs)
+            if res is None:
+                continue
+            problems, cols, height = res
             n += 1
             key = f"c20.targets.{be}.{tp.name}.{shape}"
-            cols = base.columns
-            rows = base.rows()
-
-            def bad(what, detail=None):
-                viol.append({"key": key + ":" + what.split(" ")[0], "what": what, "payload": {"inputs": inputs, "detail": str(detail)[:400]}})
-
-            ordered = False  # two separate executions may order rows differently unless arranged
-            def same_rows(r2):
-                if len(r2) != len(rows):
-                    return False
-                a = sorted(rows, key=lambda r: tuple((v is None, str(v)) for v in r))
-                b = sorted(r2, key=lambda r: tuple((v is None, str(v)) for v in r))
-                return all(len(x) == len(y) and all(_eqv(p, q) for p, q in zip(x, y, strict=True)) for x, y in zip(a, b, strict=True))
-
-            try:
-                lz = (tbl >> X.export(pdt.Polars(lazy=True)))
-                lz = lz.collect() if isinstance(lz, pl.LazyFrame) else lz
-                if lz.columns != cols or not same_rows(lz.rows()) or lz.schema != base.schema:
-                    bad("lazy export differs from eager export", {"lazy": lz.columns, "eager": cols})
-                dol = tbl >> X.export(pdt.DictOfLists())
-                if list(dol) != cols or not same_rows(list(zip(*[dol[c] for c in cols], strict=True)) if cols else []):
-                    bad("DictOfLists differs", list(dol))
-                lod = tbl >> X.export(pdt.ListOfDicts())
-                if any(list(d) != cols for d in lod) or not same_rows([tuple(d[c] for c in cols) for d in lod]):
-                    bad("ListOfDicts differs")
-                try:
-                    d1 = tbl >> X.export(pdt.Dict())
-                    if base.height != 1 or list(d1) != cols or not same_rows([tuple(d1[c] for c in cols)]):
-                        bad("Dict differs / accepted for height != 1")
-                except TypeError:
-                    if base.height == 1:
-                        bad("Dict rejected a one-row table")
-                try:
-                    sc = tbl >> X.export(pdt.Scalar())
-                    if not (base.height == 1 and len(cols) == 1 and _eqv(sc, rows[0][0])):
-                        bad("Scalar differs / accepted for a non 1x1 table")
-                except TypeError:
-                    if base.height == 1 and len(cols) == 1:
-                        bad("Scalar rejected a 1x1 table")
-                pdf = tbl >> X.export(pdt.Pandas())
-                if list(pdf.columns) != cols or not same_rows([tuple(_pd_val(v) for v in r) for r in pdf.itertuples(index=False, name=None)]):
-                    bad("Pandas differs", {"pandas": pdf.to_dict("list"), "polars": base.to_dict(as_series=False)})
-                else:
-                    # integer / boolean columns with nulls must keep an integer / boolean dtype
-                    for c in cols:
-                        if base.schema[c].is_integer() and "int" not in str(pdf[c].dtype).lower():
-                            bad(f"Pandas dtype of integer column {c} is {pdf[c].dtype}")
-                        if base.schema[c] == pl.Boolean and "bool" not in str(pdf[c].dtype).lower():
-                            bad(f"Pandas dtype of boolean column {c} is {pdf[c].dtype}")
-                re = pdt.Table(base)
-                rb = re >> X.export(pdt.Polars())
-                if rb.columns != cols or rb.schema != base.schema or not same_rows(rb.rows()):
-                    bad("Table(exported) does not reproduce the frame", {"schema": (str(rb.schema), str(base.schema))})
-                if cols:
-                    first = [c for c in tbl][0]
-                    ser = first.export(pdt.Polars())
-                    if ser.name != cols[0] or not same_rows_1(ser.to_list(), [r[0] for r in rows]):
-                        bad("ColExpr.export of the first column differs")
-                    pser = first.export(pdt.Pandas())
-                    if pser.name != cols[0] or len(pser) != base.height or not same_rows_1([_pd_val(v) for v in pser.tolist()], [r[0] for r in rows]):
-                        bad("ColExpr.export(Pandas) of the first column differs", {"name": pser.name, "len": len(pser), "values": pser.tolist()[:5]})
-                    elif str(pser.dtype) != str(pdf[cols[0]].dtype):
-                        bad(f"ColExpr.export(Pandas) dtype {pser.dtype} differs from the table export's {pdf[cols[0]].dtype}")
-            except Exception as e:  # noqa: BLE001
-                bad(f"export-target-error {type(e).__name__}: {str(e)[:200]}")
+            for what, detail in problems:
+                viol.append({"key": key + ":" + what.split(" ")[0], "what": what, "payload": {"target_agreement": {"template": tp.name, "backend": be}, "inputs": inputs, "detail": str(detail)[:400]}})
             if len(samples) < 4:
-                samples.append({"template": tp.name, "backend": be, "columns": cols, "height": base.height})
+                samples.append({"template": tp.name, "backend": be, "columns": cols, "height": height})
     return viol, n, {"target_agreement_tables": n, "target_samples": samples}
 
 
@@ -160,4 +179,23 @@ def run(tier, seed):
 
 
 def replay(path):
-    return _e1check.replay(PID, CORPUS, path)
+    import json
+
+    rec = json.load(open(path))
+    ta = rec["payload"].get("target_agreement")
+    if ta is None:
+        return _e1check.replay(PID, CORPUS, path)
+    # a target-agreement witness: re-run the comparison of all export targets on the recorded table
+    from ..e1 import Cfg
+
+    for tier in ("quick", "thorough"):
+        cfg = Cfg.for_tier(tier)
+        for m in BORROW:
+            for tp in importlib.import_module(m).templates(cfg):
+                if tp.name == ta["template"]:
+                    res = agree_on(tp, ta["backend"], rec["payload"]["inputs"])
+                    print("template", tp.name, "backend", ta["backend"], "inputs", rec["payload"]["inputs"])
+                    print("problems:", res[0] if res else "pipeline refused")
+                    return 1 if res and res[0] else 0
+    print("template not found in the corpora:", ta["template"])
+    return 3
